@@ -223,6 +223,8 @@ enum Op {
     FlushDone { k: usize },
     /// what the waiting client k has received so far; closes its connection
     WaitCheck { k: usize },
+    /// a prune request on a connection of its own while the journal thread is slow (flush held)
+    PruneW,
 }
 
 fn opt_u32(o: &Option<u32>) -> String {
@@ -262,6 +264,7 @@ fn op_sym(o: &Op) -> String {
         Op::FailNext { w, t } => format!("FAILNEXT {w} {}", tid(*t)),
         Op::Timer => "TIMER".into(),
         Op::Prune => "PRUNE".into(),
+        Op::PruneW => "PRUNEW".into(),
         Op::SubmitW { n, rq, prio } => format!("SUBMITW {n} {} {prio}", rq.sym()),
         Op::FlushDone { k } => format!("FLUSHDONE {k}"),
         Op::WaitCheck { k } => format!("WAITCHECK {k}"),
@@ -319,6 +322,7 @@ fn parse_op(line: &str) -> Op {
         "FAILNEXT" => Op::FailNext { w: t[1].parse().unwrap(), t: parse_tid(t[2]) },
         "TIMER" => Op::Timer,
         "PRUNE" => Op::Prune,
+        "PRUNEW" => Op::PruneW,
         "SUBMITW" => Op::SubmitW { n: t[1].parse().unwrap(), rq: RqSpec::parse(t[2]), prio: t[3].parse().unwrap() },
         "FLUSHDONE" => Op::FlushDone { k: t.get(1).map(|x| x.parse().unwrap()).unwrap_or(0) },
         "WAITCHECK" => Op::WaitCheck { k: t.get(1).map(|x| x.parse().unwrap()).unwrap_or(0) },
@@ -335,6 +339,7 @@ struct H {
     pruned: Rc<RefCell<Option<(Vec<u32>, Vec<u32>)>>>,
     /// hold the next journal flush request (set by SUBMITW) / the held request
     hold_flush: Rc<std::cell::Cell<Option<usize>>>,
+    prune_conns: Rc<RefCell<Vec<usize>>>,
     held_flush: Rc<RefCell<Vec<(usize, tokio::sync::oneshot::Sender<()>)>>>,
     /// the connections of the waiting clients (index = k): channels, the job (known once the
     /// response arrived); None = closed
@@ -451,7 +456,7 @@ impl H {
             let sink = resp_tx.sink_map_err(|e| tako::Error::from(format!("{e:?}")));
             client_rpc_loop(sink, req_rx, server_dir, state_ref, &senders, Arc::new(Notify::new())).await;
         });
-        H { hq, req_tx, resp_rx, events, pruned, hold_flush, held_flush, wait_conns: vec![], completed_jobs, launch_seen: Default::default(), out: String::new(), dead: false }
+        H { hq, req_tx, resp_rx, events, pruned, hold_flush, prune_conns: Default::default(), held_flush, wait_conns: vec![], completed_jobs, launch_seen: Default::default(), out: String::new(), dead: false }
     }
 
     async fn client(&mut self, m: FromClientMessage) -> Option<ToClientMessage> {
@@ -554,7 +559,7 @@ impl H {
             Op::Sched => sim.scheduling_flag(),
             Op::End { w, t, .. } => sim.pending_tasks(Self::wid(*w)).iter().any(|(x, _)| x == t),
             Op::FailNext { w, .. } => sim.workers.contains_key(&Self::wid(*w)),
-            Op::SubmitW { .. } => self.wait_conns.iter().filter(|c| c.is_some()).count() < 3 && self.hold_flush.get().is_none(),
+            Op::SubmitW { .. } | Op::PruneW => self.wait_conns.iter().filter(|c| c.is_some()).count() < 3 && self.hold_flush.get().is_none(),
             Op::FlushDone { k } => self.held_flush.borrow().iter().any(|(x, _)| x == k),
             Op::WaitCheck { k } => matches!(self.wait_conns.get(*k), Some(Some((_, _, Some(_))))),
             _ => true,
@@ -772,6 +777,16 @@ impl H {
                         }
                         settle().await;
                         let mut line = "= RESP submit ?false".to_string();
+                        if this.prune_conns.borrow().contains(k) {
+                            let l = |v: &Vec<u32>| if v.is_empty() { "-".to_string() } else { join(v.iter(), ",") };
+                            line = match this.pruned.borrow().as_ref() {
+                                Some((js, ws)) => format!("= PRUNE late jobs={} workers={}", l(js), l(ws)),
+                                None => "= PRUNE late ?".to_string(),
+                            };
+                            if let Some(c) = this.wait_conns.get_mut(*k) {
+                                *c = None;
+                            }
+                        } else
                         if let Some(Some((_, rrx, job))) = this.wait_conns.get_mut(*k) {
                             if let Ok(Some(r)) = rrx.try_next() {
                                 if let ToClientMessage::SubmitResponse(SubmitResponse::Ok { job: j, .. }) = &r {
@@ -798,6 +813,38 @@ impl H {
                             }
                             let completed = this.completed_jobs.borrow().contains(&job);
                             resp_line = Some(format!("= WAIT job={job} completed={} delivered={}", completed as u32, delivered as u32));
+                        }
+                    }
+                    Op::PruneW => {
+                        // the prune handler takes its snapshot of the live jobs / workers and hands it to
+                        // the journal thread WITHOUT yielding in between; a handler that awaits something
+                        // there (here: a journal flush, which is being held) sends a stale snapshot
+                        let (wtx, wrx) = futures::channel::mpsc::unbounded::<tako::Result<FromClientMessage>>();
+                        let (rtx, rrx) = futures::channel::mpsc::unbounded::<ToClientMessage>();
+                        let state_ref = this.hq.state_ref.clone();
+                        let senders = this.hq.senders.clone();
+                        let dir = tempfile::tempdir().unwrap();
+                        let server_dir = ServerDir::open(dir.path()).unwrap();
+                        tokio::task::spawn_local(async move {
+                            let _keep = dir;
+                            let sink = rtx.sink_map_err(|e| tako::Error::from(format!("{e:?}")));
+                            client_rpc_loop(sink, wrx, server_dir, state_ref, &senders, Arc::new(Notify::new())).await;
+                        });
+                        *this.pruned.borrow_mut() = None;
+                        let k = this.wait_conns.len();
+                        this.hold_flush.set(Some(k));
+                        let _ = wtx.unbounded_send(Ok(FromClientMessage::PruneJournal));
+                        settle().await;
+                        let l = |v: &Vec<u32>| if v.is_empty() { "-".to_string() } else { join(v.iter(), ",") };
+                        if let Some((js, ws)) = this.pruned.borrow().as_ref() {
+                            // the request went through at once (no await before the hand-over)
+                            this.hold_flush.set(None);
+                            drop((wtx, rrx));
+                            resp_line = Some(format!("= PRUNE jobs={} workers={}", l(js), l(ws)));
+                        } else {
+                            this.wait_conns.push(Some((wtx, rrx, None)));
+                            this.prune_conns.borrow_mut().push(k);
+                            resp_line = Some(format!("= PRUNE pending {k}"));
                         }
                     }
                     Op::Prune => {
@@ -1075,6 +1122,7 @@ async fn gen_trace(id: u64, rng: &mut Rng, tier: &str) -> String {
             }
             if rng.chance(1, 12) {
                 cands.push((2, Op::Prune));
+                cands.push((2, Op::PruneW));
             }
             if jobs.len() < 5 && rng.chance(1, 5) {
                 cands.push((4, Op::SubmitW { n: rng.range(1, 3) as u32, rq: RqSpec { nodes: 0, units: [1, 0, 0] }, prio: *rng.pick(&[0, 1, 3]) }));
@@ -1106,6 +1154,10 @@ async fn gen_trace(id: u64, rng: &mut Rng, tier: &str) -> String {
                     break;
                 }
                 x -= w;
+            }
+            if matches!(chosen, Op::PruneW) && rng.chance(1, 2) {
+                // something that changes the live set right behind the prune request
+                script.push(Op::Open { maxfails: None });
             }
             chosen
         };
